@@ -27,6 +27,16 @@ def atoms(tier):
                 if isinstance(l, Const) and isinstance(r, Const):
                     continue
                 out.append(Cmp(op, l, r))
+    # fixed-point operands against integer and fixed-point ones
+    fx = [Reg("x", 4), Loc("x"), Const(2.5), Const(-0.5)]
+    others = [Reg("r", 2), Reg("sr", 3), Loc("q"), Loc("i"), Loc("I"), Const(5), Const(-3)] + fx
+    for op in Cmp.OPS:
+        for f in fx:
+            for o in others:
+                for l, r in ((f, o), (o, f)):
+                    if isinstance(l, Const) and isinstance(r, Const) or l is r:
+                        continue
+                    out.append(Cmp(op, l, r))
     out += [Truth(Bin("&", Loc("B"), Const(0x10))), Truth(Bin("&", Loc("I"), Const(0x8001))),
             Truth(Bin("&", Reg("r", 2), Loc("Q"))), Truth(Loc("I")), Truth(Reg("sr", 3)),
             Bits(3, 1, "f_bit"), Bits(3, 1, "f_bit", negated=True), Bits(2, 3, "f_multi"),
